@@ -17,7 +17,7 @@ import re
 from harness import progs2, tlc
 
 SPEC_DIR = "/verif/specs/colang2"
-LEVEL = "translation_validation"
+LEVEL = "model_checking"
 UUID = re.compile(r"[0-9a-f]{8}-[0-9a-f]{4}-[0-9a-f]{4}-[0-9a-f]{4}-[0-9a-f]{12}")
 
 RICH = [
@@ -189,6 +189,28 @@ def run(ctx):
         for out in pool.imap_unordered(_worker, [j for j in jobs if j]):
             results.extend(out)
     cases = [r for r in results if r["kind"] in ("json", "aged")]
+    # ColangSM: ageing at specification level.  S (time may pass between events: Tick marks finished instances old, the
+    # clean-up at the start of the next call discards them) runs next to its twin T (no time passes); TLC checks
+    # AgeInvisible (same outgoing events, same live state) and NoDangling on every reachable pair; every reachable state
+    # is replayed in the real interpreter with the clock advanced at the Tick positions (drift), and each aged history is
+    # compared with the same history without elapsed time in the REAL interpreter (judged below with all other cases).
+    from harness import colangsm
+    csm = colangsm.explore(ctx, 30 if ctx.quick else 250, 3 if ctx.quick else 4, 1, seed_offset=1300, maxtick=2, age_pairs=True)
+    if csm["errors"]:
+        raise RuntimeError("ColangSM: TLC failed on %d programs: %s" % (len(csm["errors"]), csm["errors"][0]))
+    ctx.drift += csm["drift"]
+    for d in csm["drift_samples"][:3]:
+        print("DRIFT C11 ColangSM vs interpreter: %s" % json.dumps(d, default=str)[:1500])
+    c11viol = [v for v in csm["spec_violations"] if colangsm.SERVES.get(v["invariant"]) == "C11"]
+    for sv in c11viol:
+        ctx.note("ColangSM design-level counterexample to %s (program follows)\n%s\n%s" % (sv["invariant"], sv["program"], sv["counterexample"][:1500]))
+    ctx.log("ColangSM: %d programs, %d spec states / %d transitions (AgeInvisible, NoDangling: %d counterexamples), %d states replayed (%d with discarded instances), "
+            "%d aged histories compared with their un-aged twin in the real interpreter, drift %d" % (
+                csm["programs"], csm["states"], csm["transitions"], len(c11viol), csm["compared"], csm.get("aged_states", 0), len(csm["age_pairs"]), csm["drift"]))
+    for ap in csm["age_pairs"]:
+        srcs.setdefault(ap["origin"], ap["source"])
+        cases.append({"kind": "aged", "origin": ap["origin"], "ref": ap["ref"], "got": ap["got"], "ref_err": ap["ref_err"], "err": ap["err"],
+                      "k": sum(1 for h in ap["hist"] if h[0] == 0), "events": ["%d/%d/%d" % tuple(h) for h in ap["hist"]], "hist": ap["hist"]})
     ctx.log("%d programs, %d (history, cut point, mode) continuations" % (len(progs), len(cases)))
     # judge with TLC
     jd = ctx.sub("judge")
@@ -232,7 +254,10 @@ def run(ctx):
     return {"level": LEVEL, "coverage": {
         "programs": len(progs) + tests_run, "disagreements_checked": disagreements,
         "samples": [{"origin": c["origin"], "mode": c["kind"], "cut": c["k"], "events": c["events"]} for c in cases[:: max(1, len(cases) // 4)]][:4],
-        "states": jr.distinct, "transitions": jr.generated, "traces_validated_against_impl": len(cases),
+        "states": jr.distinct + csm["states"], "transitions": jr.generated + csm["transitions"], "traces_validated_against_impl": len(cases),
+        "colangsm": {"programs": csm["programs"], "states": csm["states"], "transitions": csm["transitions"], "states_replayed": csm["compared"],
+                     "states_with_discarded_instances": csm.get("aged_states", 0), "aged_histories_vs_twin": len(csm["age_pairs"]), "drift": csm["drift"],
+                     "design_properties": ["AgeInvisible", "NoDangling"], "violated": sorted(set(v["invariant"] for v in c11viol))},
         "evaluations": len(cases), "distinct_nontrivial": len(set((c["origin"], tuple(c["events"]), c["k"]) for c in cases if c["k"] > 0)),
         "rule": "every cut point of seeded histories (external + action events) of generated programs and hand-written programs holding sets, regexes, nested containers and "
                 "references to flows/actions/events; continuation straight vs after JSON round trip vs after the clean-up age elapsed; non-trivial = cut point after at least one event",
@@ -241,6 +266,7 @@ def run(ctx):
         "fresh identifiers in outgoing events are compared up to renaming by order of first appearance",
         "ageing is produced by advancing the clock seen by statemachine by 10 s for one run_to_completion call (datetime replaced in the statemachine module)",
         "cut points are taken where the API hands out a State (after run_to_completion)",
+        "ColangSM: ageing = Tick (all finished / failed instances become older than 5 s) at any of up to 2 (directed programs 3) points of every history <= 3 (thorough 4); JSON save/restore is not part of the specification (differential only)",
     ]}
 
 
